@@ -87,7 +87,10 @@ Definition commit_ts_bounds (evs : list event) : Prop :=
   forall pre post r s c ks p ms, evs = pre ++ ECmSend r s c ks :: post ->
     In (EMutations s p ms) pre ->
     s < c /\
-    (forall r' ks' m o, In (EPwReply r' s ks' (PwOk m o)) pre -> m <= c) /\
+    (* every min-commit ts returned for a request that locks something (a request holding only
+       CheckNotExists keys writes no lock: resolvers never see its answer) *)
+    (forall r' ks' m o, In (EPwReply r' s ks' (PwOk m o)) pre ->
+       (exists k, In k ks' /\ In k (lock_keys_of ms)) -> m <= c) /\
     (forall pre1 pre2, pre = pre1 ++ ECommitCall s false :: pre2 ->
        (forall cz, ~ In (ECommitCall s cz) pre2) ->
        forall t, In (ETso t) pre1 -> t < c) /\
@@ -122,25 +125,35 @@ Definition undetermined_only_if (evs : list event) : Prop :=
     ((exists r p' ks a o m f secs, In (EPwSend r s p' ks a o m f secs) pre /\ (a = true \/ o = true)) /\
      (count_if (is_pw_reply s) pre < count_if (is_pw_send s) pre)%nat).
 
-(* 9 (rule 7, definite error).  (c): under async commit / 1PC a successful prewrite is a commit
-   point, so "error" needs a locked mutation that can never be locked any more: every request sent
+(* 9 (rule 7, definite error).  (c): while async commit / 1PC is in force a successful prewrite is a
+   commit point, so "error" needs a locked mutation that can never be locked any more: every request sent
    for it was answered negatively.  [told_err_only_if] counts requests/replies whose key list
    contains k, for duplicate-free key lists; [told_err_only_if_occ] counts with multiplicity and
    needs no such premise (System.v counts once per occurrence). *)
+(* async commit or 1PC still in force as far as the owner can tell: every prewrite request asked for
+   async commit (and none for 1PC) and no answer reported min-commit 0; or every request asked for 1PC
+   and no answer reported "not committed in one phase".  (After a fallback the owner is a plain 2PC
+   committer: part (c) does not apply, see System.cp_active.) *)
+Definition commit_point_in_force (pre : list event) (s : N) : Prop :=
+  (exists r p' ks a o m f secs, In (EPwSend r s p' ks a o m f secs) pre) /\
+  (((forall r p' ks a o m f secs, In (EPwSend r s p' ks a o m f secs) pre -> a = true /\ o = false) /\
+    (forall r ks o, ~ In (EPwReply r s ks (PwOk 0 o)) pre)) \/
+   ((forall r p' ks a o m f secs, In (EPwSend r s p' ks a o m f secs) pre -> o = true) /\
+    (forall r ks m, ~ In (EPwReply r s ks (PwOk m 0)) pre))).
 Definition told_err_only_if (evs : list event) : Prop :=
   forall pre post s p ms, evs = pre ++ ETold s TErr :: post ->
     In (EMutations s p ms) pre ->
     (forall r c ks, In (ECmReply r s c ks CmOk) pre -> ~ In p ks) /\
     (count_if (is_pc_send s p) pre = count_if (is_pc_neg s p) pre \/
      exists r c ks, In (ECmReply r s c ks CmGone) pre /\ In p ks) /\
-    ((exists r p' ks a o m f secs, In (EPwSend r s p' ks a o m f secs) pre /\ (a = true \/ o = true)) ->
+    (commit_point_in_force pre s ->
      (forall r p' ks a o m f secs, In (EPwSend r s p' ks a o m f secs) pre -> NoDup ks) ->
      exists k, In k (lock_keys_of ms) /\
        count_if (is_pw_send_k s k) pre = count_if (is_pw_negreply_k s k) pre).
 Definition told_err_only_if_occ (evs : list event) : Prop :=
   forall pre post s p ms, evs = pre ++ ETold s TErr :: post ->
     In (EMutations s p ms) pre ->
-    (exists r p' ks a o m f secs, In (EPwSend r s p' ks a o m f secs) pre /\ (a = true \/ o = true)) ->
+    commit_point_in_force pre s ->
     exists k, In k (lock_keys_of ms) /\
       sum_of (pw_send_occ s k) pre = sum_of (pw_negreply_occ s k) pre.
 
